@@ -88,13 +88,15 @@ pub struct Model {
     pub defaults: &'static [(&'static str, &'static str)],
     /// the library has a writer for it (C15); reader-only models serve C18
     pub writable: bool,
+    /// template keys a model without catch-all does not recognise (legitimately dropped by its writer)
+    pub unrecognised: &'static [&'static str],
 }
 
 const fn m(name: &'static str, shape: Shape, template: &'static str, required: &'static [&'static str], catch_all: bool, alts: &'static [(&'static str, &'static [&'static str])], defaults: &'static [(&'static str, &'static str)]) -> Model {
-    Model { name, shape, template, required, catch_all, alts, defaults, writable: true }
+    Model { name, shape, template, required, catch_all, alts, defaults, writable: true, unrecognised: &["Type"] }
 }
 const fn ro(name: &'static str, shape: Shape, template: &'static str, required: &'static [&'static str]) -> Model {
-    Model { name, shape, template, required, catch_all: false, alts: &[], defaults: &[], writable: false }
+    Model { name, shape, template, required, catch_all: false, alts: &[], defaults: &[], writable: false, unrecognised: &[] }
 }
 
 const FORM_OPS: &[u8] = b"q 0 0 5 5 re f Q";
@@ -281,6 +283,10 @@ pub static MODELS: &[Model] = &[
 pub fn model(name: &str) -> Option<&'static Model> {
     MODELS.iter().find(|m| m.name == name)
 }
+/// Template keys that a model without catch-all does not recognise.
+pub fn unrecognised(m: &Model, key: &str) -> bool {
+    m.unrecognised.contains(&key) || matches!((m.name, key), ("Pattern", "PatternType"))
+}
 
 /// Build a case file: the zoo, the subject (object SUBJECT) and auxiliary objects; classic cross-reference table
 /// with free entries for the gap, /Size right after the last object.
@@ -289,7 +295,15 @@ pub fn case_file(subject: &Val, aux: &[(u64, Val)], freed: &[u64]) -> (Vec<u8>, 
 }
 /// `overrides` replace zoo objects (same number).
 pub fn case_file_with(subject: &Val, aux: &[(u64, Val)], freed: &[u64], overrides: &[(u64, Val)]) -> (Vec<u8>, u64) {
+    case_file_full(subject, aux, freed, overrides, &[])
+}
+/// `freed_later`: numbers that hold an object in the first section and are freed (generation bumped) by an
+/// incremental update appended to the file.
+pub fn case_file_full(subject: &Val, aux: &[(u64, Val)], freed: &[u64], overrides: &[(u64, Val)], freed_later: &[u64]) -> (Vec<u8>, u64) {
     let mut w = Writer::new(b"", "1.7");
+    for n in freed_later {
+        w.obj(*n, 0, &Val::dict(vec![("Stale", Val::Bool(true))]));
+    }
     for (n, v, data) in zoo() {
         let (v, data) = match overrides.iter().find(|(k, _)| *k == n) {
             Some((_, Val::Stream(d, bytes))) => (Val::Dict(d.clone()), Some(bytes.0.clone())),
@@ -329,6 +343,16 @@ pub fn case_file_with(subject: &Val, aux: &[(u64, Val)], freed: &[u64], override
     w.free(0, next, 65535);
     let size = max + 1;
     w.xref_table(size, &[(Bytes::from("Root"), Val::Ref(1, 0))], false);
+    if !freed_later.is_empty() {
+        // the update frees them: 0 -> later... -> (old free list)
+        let mut nxt = next;
+        for f in freed_later.iter().rev() {
+            w.free(*f, nxt, 1);
+            nxt = *f;
+        }
+        w.free(0, nxt, 65535);
+        w.xref_table(size, &[(Bytes::from("Root"), Val::Ref(1, 0))], false);
+    }
     (w.finish(), size)
 }
 
